@@ -271,6 +271,13 @@ def run(R):
             R.ob("C03-R4", "outside-template-loop", "the map is created outside the loop over templates (shared by one solution's templates)",
                  bool(tmpl_loops), where=it.where(d[2].ln),
                  detail=None if tmpl_loops else "a map per template would split a repeated label inside one solution")
+            if outer:
+                sh, sbody = min(outer, key=lambda x: len(x[1]))
+                smaller = [(h, body) for h, body in in_loops if set(body) < set(sbody)]
+                R.ob("C03-R4", "one-map-per-solution", "no loop between the loop over solutions and the creation of the map (the scope of a blank-node "
+                     "label is the whole solution)", not smaller, where=it.where(d[2].ln),
+                     detail=None if not smaller else "the map is created once per iteration of a loop nested in the solutions loop (per GRAPH block, "
+                     "per chunk of templates): a label used in two such parts of one solution gets two different nodes")
     # ---------- R7: every solution instantiates every template
     R.rule("C03-R7", "every solution counts: instantiate_templates instantiates every template under every WHERE solution - the loops "
                      "range over the whole solution sequence and the whole template list, no iteration is skipped (solutions that "
